@@ -117,6 +117,51 @@ fn c18_cancel_unknown_operation() {
     kani::cover!(!found, "no such operation");
 }
 
+// Two outstanding operations that SHARE a user_data, one still in flight and one already matured:
+// a cancel of that user_data cancels exactly ONE of them (one -ECANCELED completion); the other keeps
+// its own, still executable, completion - exactly one completion per submission, none lost.
+// @verif id=C18 tier=quick role=ring_cancel timeout=900 desc=duplicate-user_data(in-flight+matured)
+#[kani::proof]
+#[kani::unwind(8)]
+#[kani::stub(tokio::sync::Notify::notify_waiters, stub_notify_waiters)]
+#[kani::stub(std::collections::VecDeque::remove, crate::verif_common::vecdeque_remove_stub)]
+#[kani::stub(std::collections::VecDeque::swap_remove_back, crate::verif_common::vecdeque_swap_remove_back_stub)]
+#[kani::stub(std::collections::VecDeque::swap_remove_front, crate::verif_common::vecdeque_swap_remove_front_stub)]
+fn c18_cancel_with_duplicate_user_data_cancels_one() {
+    let mut r = RingState::new(4);
+    r.inflight.push(ScheduledCqe { when: ms(kani::any()), user_data: 1, apply: PendingApply::Fsync { fd: 7 } });
+    r.inflight.push(ScheduledCqe { when: ms(kani::any()), user_data: 2, apply: PendingApply::Fsync { fd: 7 } });
+    r.ready.push_back(ScheduledCqe { when: ms(0), user_data: 1, apply: PendingApply::Fsync { fd: 8 } });
+    let now = ms(kani::any());
+    r.cancel(9, 1, now);
+    assert!(count(&r, 9) == 1 && count(&r, 2) == 1);
+    assert!(count(&r, 1) == 2, "two submissions, two completions: the one that was not cancelled is not lost");
+    let mut cancelled = 0;
+    let mut executable = 0;
+    let mut i = 0;
+    while i < r.inflight.len() {
+        let c = &r.inflight[i];
+        if c.user_data == 1 {
+            if err_of(c) == Some(-ECANCELED) { cancelled += 1; } else { executable += 1; }
+        }
+        if c.user_data == 9 {
+            assert!(err_of(c) == Some(0));
+        }
+        i += 1;
+    }
+    let mut j = 0;
+    while j < r.ready.len() {
+        let c = &r.ready[j];
+        if c.user_data == 1 {
+            if err_of(c) == Some(-ECANCELED) { cancelled += 1; } else { executable += 1; }
+        }
+        j += 1;
+    }
+    assert!(cancelled == 1 && executable == 1, "exactly one of the two is cancelled");
+    kani::cover!(cancelled == 1, "one cancelled, one kept");
+    std::mem::forget(r);
+}
+
 // pop_ready(now): yields a completion iff one is visible (already matured, or in flight with
 // when <= now); never one whose instant is still in the future; removes exactly the yielded entry;
 // ready_cq_count(now) equals the number of completions that can be drained at `now`; whatever the
